@@ -52,7 +52,7 @@ Proof. reflexivity. Qed.
 Lemma merge_part_some_some : forall m t, merge_part (Some m) (Some t) = Some (pmerge m t).
 Proof. intros m [|x t]; reflexivity. Qed.
 
-Lemma merge_part_none : forall t, merge_part None t = None.
+Lemma merge_part_none : forall t, merge_part None t = if nonempty t then t else None.
 Proof. intros [[|x t]|]; reflexivity. Qed.
 
 Lemma merge_part_some_none : forall m, merge_part (Some m) None = Some m.
@@ -67,12 +67,30 @@ Definition nodup_part (o : option pd) : Prop :=
 Definition nodup_spec (o : option pubspec) : Prop :=
   match o with Some s => nodup_part (ps_branch s) /\ nodup_part (ps_global s) | None => True end.
 
-Lemma part_has_merge_part : forall mine theirs k, nodup_part theirs -> mine <> None ->
+Lemma part_has_merge_part : forall mine theirs k, nodup_part theirs ->
   part_has k (merge_part mine theirs) = part_has k mine || part_has k theirs.
 Proof.
-  intros [m|] [t|] k ND H; try (exfalso; apply H; reflexivity).
+  intros [m|] [t|] k ND.
   - rewrite merge_part_some_some. cbn [part_has]. apply has_pmerge. assumption.
   - cbn [merge_part nonempty part_has]. rewrite orb_false_r. reflexivity.
+  - rewrite merge_part_none. destruct t; reflexivity.
+  - reflexivity.
+Qed.
+
+Lemma nodup_pmerge : forall r l, NoDup (map fst l) -> NoDup (map fst (pmerge l r)).
+Proof.
+  induction r as [|[k1 v1] t IH]; intros l ND; unfold pmerge; cbn [fold_left]; [assumption|].
+  fold (pmerge (pmerge_step l (k1, v1)) t). apply IH. unfold pmerge_step.
+  destruct (lookup (fst (k1, v1)) l); apply nodup_set; assumption.
+Qed.
+
+Lemma nodup_merge_part : forall mine theirs, nodup_part mine -> nodup_part theirs -> nodup_part (merge_part mine theirs).
+Proof.
+  intros [m|] [t|] Hm Ht.
+  - rewrite merge_part_some_some. cbn [nodup_part] in *. apply nodup_pmerge; assumption.
+  - exact Hm.
+  - rewrite merge_part_none. destruct (nonempty (Some t)); [exact Ht | exact I].
+  - exact I.
 Qed.
 
 (* what the workflow text declares for the state, and what get_publish returns *)
@@ -111,89 +129,80 @@ Lemma get_publish_eq : forall tl oc oncl,
   end.
 Proof. reflexivity. Qed.
 
-(* Branch variables: nothing declared is lost PROVIDED every advanced clause that is
-   merged INTO (the on-clause of the final state; on-complete when there is no
-   task-level clause it is the base) carries a `branch` part. *)
-Theorem get_publish_branch_complete : forall tl oc oncl k,
+Lemma nodup_spec1 : forall tl oc, NoDup (map fst tl) -> nodup_spec oc -> nodup_spec (spec1_of tl oc).
+Proof.
+  intros tl oc Htl Hoc. unfold spec1_of, spec0_of.
+  destruct oc as [o|]; destruct tl as [|e tl']; cbn [nodup_spec ps_merge ps_branch ps_global nodup_part]; auto.
+  destruct Hoc as [Hb Hg]. split; apply nodup_merge_part; cbn [nodup_part]; auto.
+Qed.
+
+Lemma result_branch_spec1 : forall tl oc k, nodup_spec oc ->
+  result_branch (spec1_of tl oc) k = has k tl || match oc with Some o => part_has k (ps_branch o) | None => false end.
+Proof.
+  intros tl oc k Hoc. unfold spec1_of, spec0_of.
+  destruct oc as [o|]; destruct tl as [|e tl']; cbn [result_branch ps_merge ps_branch]; try reflexivity.
+  - rewrite part_has_merge_part by apply Hoc. reflexivity.
+  - cbn [part_has]. rewrite orb_false_r. reflexivity.
+Qed.
+
+Lemma result_global_spec1 : forall tl oc k, nodup_spec oc ->
+  result_global (spec1_of tl oc) k = match oc with Some o => part_has k (ps_global o) | None => false end.
+Proof.
+  intros tl oc k Hoc. unfold spec1_of, spec0_of.
+  destruct oc as [o|]; destruct tl as [|e tl']; cbn [result_global ps_merge ps_global]; try reflexivity.
+  rewrite part_has_merge_part by apply Hoc. reflexivity.
+Qed.
+
+(* Branch variables: exactly the declared ones are published - nothing is lost, nothing invented
+   (after fix f28ee2d0; before it a clause without the part discarded the other side's) *)
+Theorem get_publish_branch_exact : forall tl oc oncl k,
   nodup_spec oc -> nodup_spec oncl -> NoDup (map fst tl) ->
-  (forall c, oncl = Some c -> ps_branch c <> None) ->
-  declared_branch tl oc oncl k = true ->
-  result_branch (get_publish tl oc oncl) k = true.
+  result_branch (get_publish tl oc oncl) k = declared_branch tl oc oncl k.
 Proof.
-  intros tl oc oncl k Hoc Hcl Htl Hshape Hd. unfold declared_branch in Hd. rewrite get_publish_eq.
-  remember (spec1_of tl oc) as spec1 eqn:E1.
-  assert (H1 : result_branch spec1 k = has k tl || match oc with Some o => part_has k (ps_branch o) | None => false end).
-  { subst spec1. unfold spec1_of, spec0_of. destruct oc as [o|]; destruct tl as [|e tl']; cbn [result_branch ps_merge ps_branch]; try reflexivity.
-    - rewrite part_has_merge_part; [reflexivity | apply Hoc | discriminate].
-    - cbn [part_has]. rewrite orb_false_r. reflexivity. }
-  assert (N1 : match spec1 with Some s => nodup_part (ps_branch s) | None => True end).
-  { subst spec1. unfold spec1_of, spec0_of. destruct oc as [o|]; destruct tl as [|e tl']; cbn [ps_merge ps_branch nodup_part]; auto; try apply Hoc.
-    destruct (ps_branch o) as [ob|] eqn:Eo.
-    - rewrite merge_part_some_some. cbn [nodup_part].
-      assert (G : forall r l, NoDup (map fst l) -> NoDup (map fst (pmerge l r))).
-      { induction r as [|[k1 v1] t IH]; intros l ND; unfold pmerge; cbn [fold_left]; [assumption|].
-        fold (pmerge (pmerge_step l (k1, v1)) t). apply IH. unfold pmerge_step.
-        destruct (lookup (fst (k1, v1)) l); apply nodup_set; assumption. }
-      apply G. assumption.
-    - cbn [merge_part nonempty nodup_part]. assumption. }
+  intros tl oc oncl k Hoc Hcl Htl. unfold declared_branch. rewrite get_publish_eq.
+  pose proof (result_branch_spec1 tl oc k Hoc) as H1. pose proof (nodup_spec1 tl oc Htl Hoc) as N1.
   destruct oncl as [c|].
-  - specialize (Hshape c eq_refl). destruct spec1 as [s|] eqn:Es.
-    + cbn [result_branch ps_merge ps_branch]. rewrite part_has_merge_part; [| exact N1 | assumption].
+  - destruct (spec1_of tl oc) as [s|] eqn:Es.
+    + cbn [result_branch ps_merge ps_branch]. rewrite part_has_merge_part by apply N1.
       cbn [result_branch] in H1. rewrite H1.
-      destruct (has k tl), (match oc with Some o => part_has k (ps_branch o) | None => false end), (part_has k (ps_branch c));
-        cbn in *; auto; discriminate.
-    + cbn [result_branch] in *. rewrite <- H1 in Hd. cbn in Hd. assumption.
-  - rewrite H1. rewrite orb_false_r in Hd. assumption.
+      destruct (has k tl), (match oc with Some o => part_has k (ps_branch o) | None => false end), (part_has k (ps_branch c)); reflexivity.
+    + cbn [result_branch] in *. rewrite <- H1. reflexivity.
+  - rewrite H1. rewrite orb_false_r. reflexivity.
 Qed.
 
-(* The general statement is FALSE (finding F5, second and third shape): a task-level
-   `publish` (or the branch part of on-complete) is dropped when the on-clause of the
-   final state publishes only `global`. *)
-Theorem get_publish_branch_complete_refuted :
-  exists tl oc oncl k,
-    nodup_spec oc /\ nodup_spec oncl /\ NoDup (map fst tl) /\
-    declared_branch tl oc oncl k = true /\ result_branch (get_publish tl oc oncl) k = false.
+Theorem get_publish_global_exact : forall tl oc oncl k,
+  nodup_spec oc -> nodup_spec oncl -> NoDup (map fst tl) ->
+  result_global (get_publish tl oc oncl) k = declared_global oc oncl k.
 Proof.
-  exists [("x", PLit (VNum 1))], None, (Some (mkPS None (Some [("g", PLit (VNum 7))]))), "x".
-  repeat split; cbn; auto; repeat constructor; intros [].
-Qed.
-
-(* Global variables: complete when no `global` meets a clause without a `global` part
-   that it is merged into: i.e. there is no task-level clause next to a global of
-   on-complete, and the on-clause (if any) has a global part. *)
-Theorem get_publish_global_complete : forall tl oc oncl k,
-  nodup_spec oc -> nodup_spec oncl ->
-  (tl = [] \/ forall o, oc = Some o -> ps_global o = None) ->
-  (forall c, oncl = Some c -> ps_global c <> None) ->
-  declared_global oc oncl k = true ->
-  result_global (get_publish tl oc oncl) k = true.
-Proof.
-  intros tl oc oncl k Hoc Hcl Htl Hshape Hd. unfold declared_global in Hd. rewrite get_publish_eq.
-  remember (spec1_of tl oc) as spec1 eqn:E1.
-  assert (H1 : result_global spec1 k = match oc with Some o => part_has k (ps_global o) | None => false end).
-  { subst spec1. unfold spec1_of, spec0_of. destruct oc as [o|]; destruct tl as [|e tl']; cbn [result_global ps_merge ps_global]; try reflexivity.
-    destruct Htl as [Htl|Htl]; [discriminate|]. rewrite (Htl o eq_refl). reflexivity. }
-  assert (N1 : match spec1 with Some s => nodup_part (ps_global s) | None => True end).
-  { subst spec1. unfold spec1_of, spec0_of. destruct oc as [o|]; destruct tl as [|e tl']; cbn [ps_merge ps_global nodup_part]; auto; try apply Hoc.
-    rewrite merge_part_none. exact I. }
+  intros tl oc oncl k Hoc Hcl Htl. unfold declared_global. rewrite get_publish_eq.
+  pose proof (result_global_spec1 tl oc k Hoc) as H1. pose proof (nodup_spec1 tl oc Htl Hoc) as N1.
   destruct oncl as [c|].
-  - specialize (Hshape c eq_refl). destruct spec1 as [s|] eqn:Es.
-    + cbn [result_global ps_merge ps_global]. rewrite part_has_merge_part; [| exact N1 | assumption].
-      cbn [result_global] in H1. rewrite H1. rewrite orb_comm. assumption.
-    + cbn [result_global] in *. rewrite <- H1 in Hd. cbn in Hd. assumption.
-  - rewrite H1. rewrite orb_false_r in Hd. assumption.
+  - destruct (spec1_of tl oc) as [s|] eqn:Es.
+    + cbn [result_global ps_merge ps_global]. rewrite part_has_merge_part by apply N1.
+      cbn [result_global] in H1. rewrite H1. apply orb_comm.
+    + cbn [result_global] in *. rewrite <- H1. reflexivity.
+  - rewrite H1. rewrite orb_false_r. reflexivity.
 Qed.
 
-(* finding F5, first shape: `on-complete: {publish: {global: ...}}` next to a task-level
-   `publish` is dropped *)
-Theorem get_publish_global_complete_refuted :
-  exists tl oc oncl k,
-    nodup_spec oc /\ nodup_spec oncl /\
-    declared_global oc oncl k = true /\ result_global (get_publish tl oc oncl) k = false.
-Proof.
-  exists [("x", PLit (VNum 1))], (Some (mkPS (Some [("y", PLit (VNum 2))]) (Some [("g", PLit (VNum 7))]))), None, "g".
-  repeat split; cbn; auto; repeat constructor; intros [].
-Qed.
+Corollary get_publish_branch_complete : forall tl oc oncl k,
+  nodup_spec oc -> nodup_spec oncl -> NoDup (map fst tl) ->
+  declared_branch tl oc oncl k = true -> result_branch (get_publish tl oc oncl) k = true.
+Proof. intros. rewrite get_publish_branch_exact; assumption. Qed.
+
+Corollary get_publish_global_complete : forall tl oc oncl k,
+  nodup_spec oc -> nodup_spec oncl -> NoDup (map fst tl) ->
+  declared_global oc oncl k = true -> result_global (get_publish tl oc oncl) k = true.
+Proof. intros. rewrite get_publish_global_exact; assumption. Qed.
+
+(* regression witnesses of the former defect F5 (three shapes): all declared variables are
+   now in the result *)
+Lemma former_f5_witnesses_clean :
+  result_global (get_publish [("x", PLit (VNum 1))]
+                   (Some (mkPS (Some [("y", PLit (VNum 2))]) (Some [("g", PLit (VNum 7))]))) None) "g" = true /\
+  result_branch (get_publish [("x", PLit (VNum 1))] None (Some (mkPS None (Some [("g", PLit (VNum 7))])))) "x" = true /\
+  result_global (get_publish [] (Some (mkPS None (Some [("g", PLit (VNum 7))])))
+                   (Some (mkPS (Some [("x", PLit (VNum 1))]) None))) "g" = true.
+Proof. repeat split; reflexivity. Qed.
 
 (* priority among clauses that define the same (non-dict) variable:
    on-complete over task-level over the on-clause of the final state *)
